@@ -133,6 +133,16 @@ FIRST_MISSED = {
     "C16q": "missed first in the quick tier: BRN added to its countries (the thorough tier had it)",
     "C16r": "missed first in the quick tier: SWT added to its countries (the thorough tier and C06 / C07 had it)",
     "C18r": "missed first: nothing tied the final round's charge to what the adjustment returned; `AdjustedIsCharged`",
+    # wave 10 (C08 C09 C10 C11 C13 C15 C17 only)
+    "C08s": "the known-to-fail correction firing for shut-off values the table does not list: caught by C13 (near miss on the shut-off value, added after reading the summary)",
+    "C08t": "an option-level slip (the buffer of the fourth stock regime lost): caught by C13 `WritesAsDocumented`",
+    "C09t": "an option-level slip (small seasonal shares zeroed): caught by C13 once `Doc` held the country's seasonality (`rowlist:`, MWI and PHL rows)",
+    "C10t": "closed after reading the summary: quantities above the need (three times the requirement is three times the population)",
+    "C11s": "closed after reading the summary: shifts by the length of the series and by more",
+    "C11t": "a wrong entry of the multiplier table (numbers, not labels): caught by C10 `get_conversion`",
+    "C13s": "closed after reading the summary: the yaml front end is replayed with two simulations (nothing is inherited from the one before)",
+    "C15s": "closed after reading the summary: the fraction the runner itself announces is compared too",
+    "C15t": "a slip in the yaml front end (a simulation's `countries` key sticks): caught by C13's front-end replay",
     "C18c": "caught from wave 1; a later encoding change turned its `inf` into a machinery failure for a while: a non-finite observation is now a violation",
 }
 
